@@ -109,5 +109,8 @@ def run(ck):
     ck.cov["max_steps_seen"] = max([len(x["steps"]) for x in res] or [0])
     C03.end_to_end(ck, exe, 120 if big else 30)
     fault_cases(ck, 150 if big else 40)
+    if big:
+        from props.filegen import production_scale
+        production_scale(ck)     # 40 MiB and > 4 GiB with the production constants: an operation that does not return there is this property's
     return finish_proof(ck, rule="termination under seeded schedules of the real pipeline (scheduler shim reports 'no enabled thread while a thread is unfinished' as DEADLOCK and > 2*10^6 steps as LIVELOCK): empty inputs, inputs ending exactly on a chunk boundary, more workers than chunks (T up to 16), both directions, uniform and priority schedulers, extra yields inside critical sections in a quarter of the runs; every trace replayed on the Coq transition system (incl. the number of enabled threads at every step); whole encrypt/decrypt/verify under random schedules; encrypt/decrypt on input streams whose reads start failing (EIO) at offset 0, inside a chunk, on a chunk boundary, and during decryption's second pass (real threads; must return). distinct = distinct (T, direction, length, schedule)",
                         assumptions=C03.ASSUME + ["proved: no lost wake-up, deadlock freedom for every reachable state, and length sched <= B + 2 * (number of spurious wake-ups in sched) for every schedule: every execution with finitely many spurious wake-ups is finite and every maximal one ends in the terminal state"])
